@@ -568,6 +568,31 @@ func genC16(t *rapid.T) *C16Case {
 	}
 	f := GenFile(t, cfg)
 	uniquify(f, c16Auto)
+	if rapid.IntRange(0, 3).Draw(t, "formattwin") == 0 {
+		// the format() call of a text statement written again, inline, in a later script: the inline text is a
+		// text of its own, attributed to its own string literal
+		for ti, tp := range f.Tops {
+			if tp.K != "text" || tp.Text.Val == nil || !tp.Text.Val.Format {
+				continue
+			}
+			var later *Script
+			for _, tq := range f.Tops[ti+1:] {
+				if tq.K == "script" {
+					later = tq.Script
+				}
+			}
+			if later == nil {
+				continue
+			}
+			v := tp.Text.Val
+			cp := &TextVal{Lit: &StrLit{Type: v.Lit.Type, Parts: append([]string{}, v.Lit.Parts...), Seps: append([]string{}, v.Lit.Seps...)}, Format: true}
+			for _, fp := range v.Params {
+				cp.Params = append(cp.Params, &FParam{Name: fp.Name, Val: fp.Val})
+			}
+			later.Body.Stmts = append([]*Stmt{sCmd(&Cmd{Name: "cfmttwin", Args: []*Arg{{Toks: []string{"U_twin"}}, {Text: cp}}})}, later.Body.Stmts...)
+			break
+		}
+	}
 	if rapid.IntRange(0, 2).Draw(t, "selfconsts") == 0 {
 		// constants that stand for themselves (const CASE_U7 = CASE_U7): the output text is unchanged, but every
 		// use of the name goes through constant substitution and must keep the position of the written token
